@@ -1,11 +1,20 @@
 /-
 C02 — property theorems for the sampling-specification model (`Nitime.C02`).
+
+Full-strength statements are about variant `.intended` (the code with the proposed repairs, which
+the correspondence compares the implementation with); `…_counterexample` theorems exhibit exact
+binary64 witnesses on variant `.current` (the unchanged tree) and `…_partial` theorems state what
+does hold for `.current`.  Helper lemmas live in `Nitime/Lemmas/C02.lean`.
 -/
 import Nitime.Model.C02
 import Nitime.Lemmas.F64
+import Nitime.Lemmas.C02
 
 namespace Nitime.C02.Props
 open Nitime Nitime.C02 Nitime.Generated
+open Nitime.C01 (Num toPs)
+
+/-! ### argument combinations -/
 
 /-- the documented argument combinations (docstring of `UniformTime`), as a predicate on the
 presence of (interval, rate, length, duration) and of an existing axis -/
@@ -15,9 +24,272 @@ def documented (iv rate len dur withAxis : Bool) : Bool :=
   (withAxis && ((!iv && !rate && !len && !dur) || (iv && !rate && !len && !dur) ||
     (!iv && rate && !len && !dur) || (!iv && !rate && len && !dur) || (!iv && !rate && !len && dur)))
 
-/-- the tables regenerated from the source accept exactly the documented combinations -/
+/-- series: exactly one of interval / rate, or a duration alone -/
+def documentedSeries (iv rate dur : Bool) : Bool :=
+  (iv && !rate) || (!iv && rate) || (!iv && !rate && dur)
+
+/-- the tables regenerated from the source accept exactly the documented combinations
+(16 patterns without, 16 with an existing axis) -/
 theorem accepts_iff_documented (iv rate len dur withAxis : Bool) :
     (validTspecs withAxis).contains [iv, rate, len, dur] = documented iv rate len dur withAxis := by
   revert iv rate len dur withAxis; decide
+
+theorem series_accepts_iff_documented (iv rate dur : Bool) :
+    seriesTspecOk iv rate dur = documentedSeries iv rate dur := by
+  revert iv rate dur; decide
+
+/-- the names the inheritance block uses are the five extra patterns, in the documented order -/
+theorem wd_table : wd 0 = [false, false, false, false] ∧ wd 1 = [true, false, false, false] ∧
+    wd 2 = [false, true, false, false] ∧ wd 3 = [false, false, true, false] ∧
+    wd 4 = [false, false, false, true] := by decide
+
+/-- incomplete or over-determined argument combinations are rejected with `ValueError`, whatever
+the values, in both variants, before anything else is looked at -/
+theorem rejects_documented (v : Variant) (s : Spec)
+    (h : documented s.interval.isSome s.rate.isSome s.length.isSome s.duration.isSome s.data.isSome = false) :
+    mkUniform v s = .error .valueError := by
+  have : (validTspecs s.data.isSome).contains (tspecOf s) = false := by
+    rw [tspecOf, accepts_iff_documented]; exact h
+  simp only [mkUniform, checkTspec, this, bind, Except.bind, Bool.false_eq_true, ↓reduceIte]
+
+/-- and nothing is rejected for its argument pattern when the pattern is documented -/
+theorem accepts_documented (s : Spec)
+    (h : documented s.interval.isSome s.rate.isSome s.length.isSome s.duration.isSome s.data.isSome = true) :
+    checkTspec s = .ok () := by
+  have : (validTspecs s.data.isSome).contains (tspecOf s) = true := by
+    rw [tspecOf, accepts_iff_documented]; exact h
+  simp only [checkTspec, this, ↓reduceIte]
+
+theorem series_rejects_documented (v : Variant) (n : Nat) (t0 iv : Option TArg) (rate : Option RArg)
+    (dur : Option TArg) (u : UArg) (h : documentedSeries iv.isSome rate.isSome dur.isSome = false) :
+    mkSeries v n t0 iv rate dur u = .error .valueError := by
+  have : seriesTspecOk iv.isSome rate.isSome dur.isSome = false := by
+    rw [series_accepts_iff_documented]; exact h
+  simp [mkSeries, this, bind, Except.bind, throw, throwThe, MonadExceptOf.throw]
+
+/-! ### the samples -/
+
+/-- sample `i` lies exactly at `t0 + i·Δ`, and there are `n` of them -/
+theorem samples_affine (a : Axis) :
+    (samples a).length = a.n ∧ ∀ i, i < a.n → (samples a)[i]? = some (a.t0 + (i : Int) * a.dt) := by
+  refine ⟨by simp [samples], fun i hi => ?_⟩
+  simp [samples, sampleAt, hi]
+
+/-- consecutive samples differ by exactly `Δ` (what `np.diff` shows) -/
+theorem samples_diff (a : Axis) (i : Nat) : sampleAt a (i + 1) - sampleAt a i = a.dt := by
+  simp only [sampleAt]; push_cast; ring
+
+/-! ### accepted specifications: what the axis is -/
+
+/-- every accepted specification went through validation, resolution and layout -/
+theorem mkUniform_ok {v : Variant} {s : Spec} {a : Axis} (h : mkUniform v s = .ok a) :
+    checkTspec s = .ok () ∧ ∃ r, resolve v s = .ok r ∧ build v s.length r = .ok a :=
+  mkUniform_inv h
+
+/-- `len_eq_length`: a requested length is the number of samples, exactly — whatever the
+interval, rate, unit and start, whole picoseconds or not -/
+theorem len_eq_length {s : Spec} {a : Axis} {l : Nat}
+    (h : mkUniform .intended s = .ok a) (hl : s.length = some l) : a.n = l := by
+  obtain ⟨_, r, _, hb⟩ := mkUniform_inv h
+  rw [hl] at hb
+  exact (build_intended hb).2.2.2.2.2.2
+
+/-- `len_duration_only`: with no length, sample `i` exists iff the `i`-th multiple of the interval
+lies before the requested duration -/
+theorem len_duration_only {s : Spec} {a : Axis}
+    (h : mkUniform .intended s = .ok a) (hl : s.length = none) :
+    ∃ r, resolve .intended s = .ok r ∧ a.dt = r.dt ∧ ∀ i : Nat, i < a.n ↔ (i : Int) * a.dt < r.durReq := by
+  obtain ⟨_, r, hr, hb⟩ := mkUniform_inv h
+  rw [hl] at hb
+  obtain ⟨hpos, _, hdt, _, _, _, hn⟩ := build_intended hb
+  refine ⟨r, hr, hdt, fun i => ?_⟩
+  rw [hn, hdt]
+  exact countBefore_spec r.durReq r.dt hpos i
+
+/-- `attrs_describe_axis` (start, interval, duration): the axis starts at the resolved start, its
+interval is the stored whole-picosecond interval (positive), and the reported duration covers
+exactly the `n` intervals -/
+theorem attrs_describe_axis {s : Spec} {a : Axis} (h : mkUniform .intended s = .ok a) :
+    0 < a.dt ∧ a.dur = (a.n : Int) * a.dt ∧
+    ∃ r, resolve .intended s = .ok r ∧ a.t0 = r.t0 ∧ a.dt = r.dt ∧ a.rate = r.rate ∧ a.unit = r.unit := by
+  obtain ⟨_, r, hr, hb⟩ := mkUniform_inv h
+  obtain ⟨hpos, h0, hdt, hrate, hu, hdur, _⟩ := build_intended hb
+  exact ⟨hdt ▸ hpos, hdur, r, hr, h0, hdt, hrate, hu⟩
+
+/-- the last sample lies one interval before the end of the reported duration -/
+theorem last_sample_before_end {s : Spec} {a : Axis} (h : mkUniform .intended s = .ok a) (hn : 0 < a.n) :
+    sampleAt a (a.n - 1) + a.dt = a.t0 + a.dur := by
+  obtain ⟨_, hdur, _⟩ := attrs_describe_axis h
+  rw [hdur, sampleAt]
+  have : ((a.n - 1 : Nat) : Int) = (a.n : Int) - 1 := by omega
+  rw [this]; ring
+
+/-- `len_eq_data`: the lazily built time axis of a series has exactly as many samples as the data
+has along its last axis, and starts / steps as the series says -/
+theorem len_eq_data {n : Nat} {t0 iv : Option TArg} {rate : Option RArg} {dur : Option TArg} {u : UArg}
+    {sr : Series} (h : mkSeries .intended n t0 iv rate dur u = .ok sr) :
+    sr.time.n = n ∧ sr.time.t0 = sr.t0 ∧ sr.time.dt = sr.dt ∧ sr.time.unit = sr.unit ∧
+    sr.time.dur = (n : Int) * sr.dt := by
+  obtain ⟨ax, hax, h0, hdt, hu⟩ := mkSeries_inv h
+  have hn : sr.time.n = n := by rw [← hax.2] ; exact len_eq_length hax.1 rfl
+  obtain ⟨_, hdur, _⟩ := attrs_describe_axis hax.1
+  refine ⟨hn, ?_, ?_, ?_, ?_⟩
+  · rw [← hax.2]; exact h0
+  · rw [← hax.2]; exact hdt
+  · rw [← hax.2]; exact hu
+  · rw [← hax.2, hdur, hax.2, hn, ← hax.2, hdt]
+
+/-- the same for a series built on an existing axis -/
+theorem len_eq_data_from_time {ax : Axis} {n : Nat} {t0 : Option TArg} {u : UArg} {sr : Series}
+    (h : mkSeriesFromTime .intended ax n t0 u = .ok sr) :
+    sr.time.n = n ∧ sr.time.dt = ax.dt ∧ sr.dt = ax.dt ∧ sr.rate = ax.rate ∧
+    (t0 = none → sr.time.t0 = ax.t0) := by
+  exact mkSeriesFromTime_inv h
+
+/-! ### the same sampling written differently -/
+
+/-- an interval given as a time object is stored as it is, whatever its display unit and whatever
+the unit of the axis (any unit pair) -/
+theorem interval_object_any_unit (u : TimeUnit) (ps : Int) (iu : TimeUnit) :
+    targPs u (.tobj ps iu) = ps := rfl
+
+/-- whole-number intervals that denote the same time in two units give the same stored interval -/
+theorem same_interval_any_unit_pair (u u' : TimeUnit) (k k' : Int)
+    (h : k * (factor u : Int) = k' * (factor u' : Int)) :
+    targPs u (.num (.int k)) = targPs u' (.num (.int k')) := by
+  simpa [targPs, toPs, C01.toPsF] using h
+
+/-- two accepted specifications that resolve to the same start and interval and ask for the same
+length are the same axis (start, interval, count, duration) — in particular an interval `x` and
+the rate `1/x` whenever the period of that rate rounds back to the same picosecond -/
+theorem same_sampling_same_axis {s s' : Spec} {a a' : Axis} {r r' : Resolved} {l : Nat}
+    (h : mkUniform .intended s = .ok a) (h' : mkUniform .intended s' = .ok a')
+    (hr : resolve .intended s = .ok r) (hr' : resolve .intended s' = .ok r')
+    (hl : s.length = some l) (hl' : s'.length = some l)
+    (h0 : r.t0 = r'.t0) (hdt : r.dt = r'.dt) :
+    a.t0 = a'.t0 ∧ a.dt = a'.dt ∧ a.n = a'.n ∧ a.dur = a'.dur ∧ samples a = samples a' := by
+  obtain ⟨_, hd, q, hq, e0, edt, _, _⟩ := attrs_describe_axis h
+  obtain ⟨_, hd', q', hq', e0', edt', _, _⟩ := attrs_describe_axis h'
+  rw [hr] at hq; rw [hr'] at hq'
+  cases hq; cases hq'
+  have hn : a.n = a'.n := by rw [len_eq_length h hl, len_eq_length h' hl']
+  have ht : a.t0 = a'.t0 := by rw [e0, e0', h0]
+  have hdd : a.dt = a'.dt := by rw [edt, edt', hdt]
+  refine ⟨ht, hdd, hn, by rw [hd, hd', hn, hdd], ?_⟩
+  simp only [samples, hn]
+  apply List.map_congr_left
+  intro i _
+  simp [sampleAt, ht, hdd]
+
+/-! ### exact binary64 witnesses: what today's code does, and what the intended model does -/
+
+/-- 2.2 as a double -/
+def x2_2 : Rat := F64.ofBits 0x400199999999999a
+/-- 1/3 as a double -/
+def x1_3 : Rat := F64.ofBits 0x3fd5555555555555
+/-- 0.81327 and its reciprocal as doubles -/
+def x0_81327 : Rat := F64.ofBits 0x3fea064ece9a2c67
+def r0_81327 : Rat := F64.ofBits 0x3ff3ac752f8f559e
+
+def countOf (r : Except Err Axis) : Option Nat := r.toOption.map (·.n)
+def dtOf (r : Except Err Axis) : Option Int := r.toOption.map (·.dt)
+def durOf (r : Except Err Axis) : Option Int := r.toOption.map (·.dur)
+
+/-- today: 100 samples of 2.2 min requested, 101 delivered (duration computed in binary64:
+13200000000000002 ps) -/
+theorem len_eq_length_counterexample :
+    countOf (mkUniform .current { length := some 100, interval := some (.num (.flt x2_2)), unit := .ok .m }) = some 101 ∧
+    durOf (mkUniform .current { length := some 100, interval := some (.num (.flt x2_2)), unit := .ok .m }) = some 13200000000000002 := by
+  decide +kernel
+
+/-- today: 5000 samples of 1/3 µs requested, 5001 delivered; 7 samples over 10 s requested, 8 delivered -/
+theorem len_eq_length_counterexample2 :
+    countOf (mkUniform .current { length := some 5000, interval := some (.num (.flt x1_3)), unit := .ok .us }) = some 5001 ∧
+    countOf (mkUniform .current { length := some 7, duration := some (.num (.int 10)) }) = some 8 := by
+  decide +kernel
+
+/-- the intended model on the same inputs -/
+example :
+    countOf (mkUniform .intended { length := some 100, interval := some (.num (.flt x2_2)), unit := .ok .m }) = some 100 ∧
+    durOf (mkUniform .intended { length := some 100, interval := some (.num (.flt x2_2)), unit := .ok .m }) = some 13200000000000000 ∧
+    countOf (mkUniform .intended { length := some 5000, interval := some (.num (.flt x1_3)), unit := .ok .us }) = some 5000 ∧
+    countOf (mkUniform .intended { length := some 7, duration := some (.num (.int 10)) }) = some 7 := by
+  decide +kernel
+
+/-- today: an interval and its reciprocal rate give different axes (period truncated) -/
+theorem same_sampling_counterexample :
+    dtOf (mkUniform .current { length := some 3, interval := some (.num (.flt x0_81327)) }) = some 813270000000 ∧
+    dtOf (mkUniform .current { length := some 3, rate := some (.num (.flt r0_81327)) }) = some 813269999999 := by
+  decide +kernel
+
+example :
+    dtOf (mkUniform .intended { length := some 3, interval := some (.num (.flt x0_81327)) }) = some 813270000000 ∧
+    dtOf (mkUniform .intended { length := some 3, rate := some (.num (.flt r0_81327)) }) = some 813270000000 := by
+  decide +kernel
+
+/-- today: a duration-only axis reports the requested duration (10 s) although its 4 samples of
+3 s cover 12 s -/
+theorem attrs_describe_axis_counterexample :
+    countOf (mkUniform .current { duration := some (.num (.int 10)), interval := some (.num (.int 3)) }) = some 4 ∧
+    durOf (mkUniform .current { duration := some (.num (.int 10)), interval := some (.num (.int 3)) }) = some 10000000000000 := by
+  decide +kernel
+
+example :
+    durOf (mkUniform .intended { duration := some (.num (.int 10)), interval := some (.num (.int 3)) }) = some 12000000000000 := by
+  decide +kernel
+
+/-- a 10-sample, 2 ms axis starting at 3 ms (rate 500 Hz) -/
+def axMs : Axis := { t0 := 3000000000, dt := 2000000000, n := 10, dur := 20000000000, rate := 500, unit := .ms }
+
+/-- today, construction from an existing axis: with `sampling_interval=` it raises `TypeError`;
+with `sampling_rate=4000` the interval is 250 ns (1/4000 of a millisecond) instead of 250 µs; the
+start of the source is dropped -/
+theorem from_axis_counterexample :
+    mkUniform .current { data := some axMs, interval := some (.num (.int 1)) } = .error .typeError ∧
+    dtOf (mkUniform .current { data := some axMs, rate := some (.num (.int 4000)) }) = some 250000 ∧
+    (mkUniform .current { data := some axMs }).toOption.map (·.t0) = some 0 := by
+  decide +kernel
+
+/-- intended: the same calls give 20 samples of 1 ms, 80 samples of 250 µs, and a copy of the axis -/
+example :
+    (mkUniform .intended { data := some axMs, interval := some (.num (.int 1)) }).toOption.map
+      (fun a => (a.t0, a.dt, a.n)) = some (3000000000, 1000000000, 20) ∧
+    (mkUniform .intended { data := some axMs, rate := some (.num (.int 4000)) }).toOption.map
+      (fun a => (a.t0, a.dt, a.n)) = some (3000000000, 250000000, 80) ∧
+    mkUniform .intended { data := some axMs } = .ok axMs := by
+  decide +kernel
+
+/-- today: a duration given as a time object with a length is read as a bare number of the unit -/
+theorem duration_object_counterexample :
+    dtOf (mkUniform .current { length := some 7, duration := some (.tobj 50000000000 .ms) }) = some 7142857142857142272 := by
+  decide +kernel
+
+example :
+    dtOf (mkUniform .intended { length := some 7, duration := some (.tobj 50000000000 .ms) }) = some 7142857143 := by
+  decide +kernel
+
+/-! ### what does hold for the unchanged tree -/
+
+/-- `_partial`: today's code accepts and rejects the same argument patterns (the validity check is
+shared) and lays its samples out affinely; what fails is the count, the period and the
+inheritance from an existing axis -/
+theorem rejects_documented_partial (s : Spec) :
+    (mkUniform .current s = .error .valueError ∨ checkTspec s = .ok ()) := by
+  unfold mkUniform
+  cases h : checkTspec s with
+  | ok u => right; rfl
+  | error e =>
+    left
+    have : e = .valueError := by
+      unfold checkTspec at h; split at h <;> simp_all
+    subst this
+    simp [bind, Except.bind]
+
+/-- `len_eq_length_partial`: today's count is numpy's `arange` length of the binary64 quotient;
+it equals the requested length whenever the duration is the exact product `l·Δ` and that product
+is below 2^53 ps (the path taken by `TimeSeries.time`, which passes the interval as a time object) -/
+theorem len_eq_length_partial (l : Nat) (dt : Int) (hdt : 0 < dt) (hl : 0 < l)
+    (hfit : (l : Int) * dt < 2 ^ 53) : arangeLen ((l : Int) * dt) dt = l :=
+  arangeLen_exact l dt hdt hl hfit
 
 end Nitime.C02.Props
